@@ -5,15 +5,14 @@ package electreIII
 
 import (
 	"github.com/Azbesciak/RealDecisionMaker/lib/model"
-	"github.com/Azbesciak/RealDecisionMaker/lib/utils"
 	vh "github.com/Azbesciak/RealDecisionMaker/lib/zz_vh"
 	rt "github.com/Azbesciak/RealDecisionMaker/lib/zz_verifrt"
 )
 
 //verif:bounds C05 HC05_credibility: credibility of one ordered pair (electreIIICredibility: evaluatePair, calculateElectreResult, calculateTotalC, calculateCredibility) against the textbook formula: K<=3 criteria (quick tier at K=3: each criterion without thresholds or with q+p+v), gain and cost, every combination of present/absent constant thresholds (none, q, p, q+p, p+v, q+p+v) with symbolic 0 < q < p < v, symbolic k > 0, symbolic values (ties included)
-//verif:bounds C05 HC05_distillation: RankAscending / RankDescending on an ARBITRARY symbolic credibility matrix (off-diagonal entries free in [0,1], ties and zeros included) of n<=3 (quick) / n<=4 (thorough) alternatives with the default distillation function (thorough also a symbolic one with non-positive slope and non-negative values on [0,1]) against a set-based reference distillation written from the method's definition: equal class numbers, classes consecutive from 1
+//verif:bounds C05 HC05_distillation: RankAscending / RankDescending on an ARBITRARY symbolic credibility matrix (off-diagonal entries free in [0,1], ties and zeros included) of n<=3 alternatives with the default distillation function against a set-based reference distillation written from the method's definition: equal class numbers, classes consecutive from 1
 //verif:bounds C05 HC05_preorder: EvaluateRanking on every pair of index vectors over n<=3 alternatives: b in betterThanOrSameAs(a) iff asc(a)<=asc(b) and desc(a)<=desc(b), b != a
-//verif:bounds C05 HC05_end_to_end: ElectreIII (through ParseParams and Evaluate) with A<=3 alternatives and K=1, or A<=2 and K=2 (quick); A<=3, K<=2 (thorough), symbolic values, thresholds from the shapes above with concrete numbers: indices equal the reference distillation of the credibility matrix the implementation computed, links as specified
+//verif:bounds C05 HC05_end_to_end: ElectreIII (through ParseParams and Evaluate) with A<=3 alternatives and K=1, or A<=2 and K=2, symbolic values, thresholds from the shapes above with concrete numbers: indices equal the reference distillation of the credibility matrix the implementation computed, links as specified
 //verif:outside C05: thresholds that depend on the criterion value (non-zero slope: outside the statement's 'constant thresholds'); n and K beyond the bounds; REAL arithmetic
 
 //verif:harness HC05_credibility mode=REAL reach=indifferent,weak-preference,veto-partial,veto-full,equal-values,strict-better ob_timeout_ms=60000
@@ -61,7 +60,7 @@ func HC05_credibility() {
 
 //verif:harness HC05_distillation mode=REAL reach=inner-distillation,all-zero,several-classes,tie-class
 func HC05_distillation() {
-	n := rt.IntRange("n", 1, rt.Pick(3, 4))
+	n := rt.IntRange("n", 1, 3) // an arbitrary 4x4 matrix did not finish (thorough tier adds the symbolic distillation function instead)
 	sigma := make([][]float64, n)
 	rows := make([][]float64, n)
 	ids := make(model.Alternatives, n)
@@ -79,11 +78,8 @@ func HC05_distillation() {
 		}
 	}
 	fn := DefaultDistillationFunc
-	if rt.Thorough() && rt.Bool("custom-distillation-function") {
-		fa, fb := rt.FloatIn("fun.a", -1, 0), rt.FloatIn("fun.b", 0, 1)
-		rt.Assume(fa+fb >= 0) // non-negative on [0,1] with non-positive slope
-		fn = utils.LinearFunctionParameters{A: fa, B: fb}
-	}
+	// (a symbolic distillation function was tried for the thorough tier: the harness's own reference distillation then
+	// hits its loop bound on some paths and an arbitrary 4x4 matrix does not finish - neither is registered)
 	m := &AlternativesMatrix{Alternatives: &ids, Values: NewMatrix(&rows)}
 	asc := *RankAscending(m, &fn)
 	desc := *RankDescending(m, &fn)
@@ -170,17 +166,15 @@ func HC05_preorder() {
 	}
 }
 
-//verif:harness HC05_end_to_end mode=REAL reach=ranked,incomparable-or-tied ob_timeout_ms=60000 budget_thorough=90m
+//verif:harness HC05_end_to_end mode=REAL reach=ranked,incomparable-or-tied ob_timeout_ms=60000 budget_thorough=45m
 func HC05_end_to_end() {
 	A := rt.IntRange("A", 1, 3)
 	K := rt.IntRange("K", 1, 2)
-	if !rt.Thorough() {
-		rt.Assume(K == 1 || A <= 2) // quick tier: three alternatives with one criterion, two criteria with two alternatives
-	}
+	shape := rt.OneOf("thresholds", eShapes...)
+	rt.Assume(K == 1 || A <= 2) // three alternatives with one criterion, two criteria with two alternatives (A=3 with K=2 did not finish in 15 min for one threshold shape)
 	crit := vh.Criteria(K, "")
 	known := vh.Alternatives("", vh.AltIds[:A], crit)
 	params := map[string]interface{}{}
-	shape := rt.OneOf("thresholds", eShapes...)
 	for i, c := range crit {
 		e := map[string]interface{}{"k": []float64{1, 2}[i]}
 		if shape == "q" || shape == "qp" || shape == "qpv" {
